@@ -297,6 +297,29 @@ def deps(R, ctx):
                      "dependencies are recorded before the rule's error is propagated: %s" % ok)
 
 
+def stable(R, ctx, roles):
+    """Node indices cached in other fields stay valid across node removal only in a graph with stable indices."""
+    rid = "C10.stable"
+    lib = ctx.lib
+    R.rule(rid, "typestate on the worker's dependency graph: while any other field of the worker stores node indices (the path -> node map, "
+                "the external-dependency sets) and a method removes nodes from the graph, the graph's type must keep indices stable under "
+                "removal (petgraph's StableGraph); a plain Graph moves the last node into the freed slot, so a cached index then names "
+                "another work item (or nothing)")
+    a = lib.adts.get(WT)
+    fields = a["variants"][0]["fields"] if a else []
+    gtype = next((f["tys"] for f in fields if f["name"] == roles.fields.get("graph")), "")
+    cached = [f["name"] for f in fields if "NodeIndex" in f["tys"] and f["name"] != roles.fields.get("graph")]
+    removers = []
+    for f in roles.methods:
+        for c in thir.calls(f):
+            if c.get("fname") in ("remove_node",) and c["args"] and "raph" in lib.ty_str(lib.strip_refs(c["args"][0]["t"])):
+                removers.append(f["path"].split("::")[-1])
+    R.require(rid, "anchor:cached-indices", bool(cached) and bool(removers), ctx.adt_where(WT), "fields caching node indices: %s; methods removing nodes: %s" % (cached, sorted(set(removers))))
+    stable_ = "stable_graph::StableGraph<" in gtype
+    R.ob(rid, "graph-type", stable_ or not (cached and removers), ctx.adt_where(WT),
+         "graph type `%s` %s indices stable under remove_node while %s cache them" % (gtype.split("<")[0], "keeps" if stable_ else "does NOT keep", cached))
+
+
 def run(R, ctx):
     R.explanation = (
         "Necessary structural conditions of the incremental worker decided on MIR/THIR: fingerprint compared before work and over the "
@@ -313,4 +336,5 @@ def run(R, ctx):
     clean(R, ctx, roles)
     unlink(R, ctx, roles)
     links(R, ctx, roles)
+    stable(R, ctx, roles)
     deps(R, ctx)
